@@ -8,6 +8,28 @@ ROOT = os.path.dirname(os.path.dirname(os.path.abspath(__file__)))
 TECH = "bounded symbolic execution of the real Python source (sx: replay-based DSE) with z3 deciding every path and assertion query"
 
 CLAIMED = {
+    "C07": {
+        "category": "other",
+        "text": "Spectra are generated symbolically by the real model circuit (_generate_circuit + _update_circuit on a symbolic variable "
+                "vector, real Circuit.get_impedances over symbolic frequencies and time constants). The real _complex_test/_real_test/"
+                "_imaginary_test of the least-squares implementation (24 variant x representation x C x L combinations) and of the matrix-"
+                "inversion implementation (12) then run with lstsq/pinv/inv replaced by their contract; the stub asks z3, row by row, whether "
+                "A.x* can differ from the right-hand side the code built (every design-matrix column and sign), and the fitted circuit is "
+                "compared with the spectrum (zero residuals) and the generating parameters. num_RC=2 (3), 2 (3) frequencies, all values symbolic.",
+        "design_ref": "DESIGN.md section 4, C07",
+        "note": "linear-solver contract (exact minimum-norm solution of a consistent system); floats as reals; matrix-inversion stages that use "
+                "1e-18/1e18 placeholders are executed but not compared; cnls (lmfit) and time-constant generation are outside",
+    },
+    "C09": {
+        "category": "other",
+        "text": "Metamorphic relations decided by z3 on the real code with symbolic spectra and symbolic positive scale factors: design matrices at "
+                "(s*w, tau/s) equal those at (w, tau) up to one positive factor per column (least squares and inversion variants, all 24+4 "
+                "option combinations), right-hand sides scale with c or 1/c, |X|-scaled matrices rescale inversely with an invariant right-hand "
+                "side, the circuit of the rescaled variables has the same immittance at the rescaled frequency and time constants scaled by 1/s, "
+                "reversed point order only permutes rows, residuals / Boukamp weights / pseudo chi-squared are invariant.",
+        "design_ref": "DESIGN.md section 4, C09",
+        "note": "least-squares equivariance contract for the linear solver; time constants of the rescaled problem assumed tau/s; floats as reals",
+    },
     "C14": {
         "category": "model_checking",
         "text": "Inductive step over the parameter state machine: from every state satisfying the representation invariant "
